@@ -166,3 +166,29 @@ func VerifC17_listers() {
 	vfAssert(len(l1) == len(l2), "concurrent-listings-agree")
 	_ = d
 }
+
+// VerifC17_lookupsbetween: lookups interleaved with registrations of the same name: each lookup shows
+// the registration made last before it, whatever was looked up (found or not) before.
+func VerifC17_lookupsbetween() {
+	x := vfString("x", 2, vfASCII)
+	if vfChoice("builtin", 2) == 1 {
+		x = vfBuiltinNames[vfChoice("which", len(vfBuiltinNames))]
+	}
+	before := Named(x) // a hit for a built-in, usually a miss otherwise
+	d1, d2 := vfDeco('1'), vfDeco('2')
+	if vfChoice("first-registration", 2) == 1 {
+		RegisterDecorationName(x, d1)
+		if vfChoice("lookup-after-first", 2) == 1 {
+			vfAssert(Named(x) == d1, "lookup-returns-latest-registration-or-empty")
+		}
+		before = d1
+	}
+	if vfChoice("other-lookup", 2) == 1 {
+		Named(vfString("y", 1, vfASCII))
+	}
+	vfAssert(Named(x) == before, "lookup-returns-latest-registration-or-empty")
+	RegisterDecorationName(x, d2)
+	vfAssert(Named(x) == d2, "overwrite-takes-effect")
+	RegisterDecorationName(x, EmptyDecoration)
+	vfAssert(Named(x) == EmptyDecoration, "overwrite-takes-effect")
+}
